@@ -529,6 +529,12 @@ def describe(case, out):
 
 
 def shrink(case):
+    """At most 16 candidates per round (each round costs one Coq evaluation of all candidates)."""
+    import itertools
+    return itertools.islice(_shrink_all(case), 16)
+
+
+def _shrink_all(case):
     if case["via"] == "read":
         lines = case["text"].split("\n")
         for i in range(len(lines)):
